@@ -493,6 +493,54 @@ func (v *V) evalSpecBuiltin(e *Env, name string, call *ast.CallExpr) (Val, bool)
 			return boolVal(fmt.Sprintf("(forall ((%s %s)) (=> %s %s))", qn, d.sortOf(t), inv, body.S)), true
 		}
 		return boolVal(fmt.Sprintf("(exists ((%s %s)) (and %s %s))", qn, d.sortOf(t), inv, body.S)), true
+	case "fieldsEqual", "fieldsEqualExcept":
+		// fieldsEqual(a, b): every field of the struct (taken from go/types, so a field added later
+		// is covered) has the same value in a and b; fieldsEqualExcept(a, b, F1, F2, ...) skips some.
+		a, b := e.eval(args[0]), e.eval(args[1])
+		skip := map[string]bool{}
+		for _, x := range args[2:] {
+			id, ok := x.(*ast.Ident)
+			if !ok {
+				panic(bindErr("%s: field names expected", name))
+			}
+			skip[id.Name] = true
+		}
+		var st *types.Struct
+		switch u := a.T.Underlying().(type) {
+		case *types.Pointer:
+			st, _ = u.Elem().Underlying().(*types.Struct)
+		case *types.Struct:
+			st = u
+		}
+		if st == nil || !types.Identical(a.T, b.T) {
+			panic(bindErr("%s: arguments must be two values of the same struct (pointer) type", name))
+		}
+		var conj []string
+		used := map[string]bool{}
+		for i := 0; i < st.NumFields(); i++ {
+			f := st.Field(i)
+			if skip[f.Name()] {
+				used[f.Name()] = true
+				continue
+			}
+			fa, fb := v.readField(e, a, f, token.NoPos), v.readField(e, b, f, token.NoPos)
+			if _, isSl := f.Type().Underlying().(*types.Slice); isSl {
+				conj = append(conj, eq(fa.S, fb.S))
+			} else if isFloat(f.Type()) {
+				conj = append(conj, eq(fa.S, fb.S)) // same bits
+			} else {
+				conj = append(conj, eq(fa.S, fb.S))
+			}
+		}
+		for n := range skip {
+			if !used[n] {
+				panic(bindErr("%s: no field %s", name, n))
+			}
+		}
+		return boolVal(and(conj...)), true
+	case "offset":
+		a := e.eval(args[0])
+		return Val{T: tInt, S: "(sl_off " + a.S + ")"}, true
 	case "let":
 		// let(x, value, body): value is evaluated in the current state and bound to x in body
 		// (so that old(...) inside body can mention a value computed in the new state)
@@ -750,8 +798,63 @@ func (v *V) callFuncValue(e *Env, fv Val, call *ast.CallExpr) []Val {
 	if !e.spec {
 		v.nilObl(e, fv.S, call.Pos(), "call of nil function value")
 	}
+	if !e.spec && contains(v.spec.Impure, types.ExprString(call.Fun)) {
+		// declared impure: everything on the heap may change, results are arbitrary
+		if len(e.st.guards) > 0 {
+			panic(unsupported("impure call inside a short-circuit operand"))
+		}
+		if mods, ok := v.spec.ImpureMods[types.ExprString(call.Fun)]; ok {
+			// effect restricted (by assumption, listed) to the given locations
+			v.trust(fmt.Sprintf("calls through %s in %s modify at most: %s", types.ExprString(call.Fun), v.fi.name(), strings.Join(mods, ", ")))
+			scope, spos := v.funcScope(v.fi)
+			me := v.specEnv(e.st.clone(), nil, v.top, scope, spos)
+			if sc := v.top.info.Scopes[v.enclosingBlock(call)]; sc != nil {
+				me.scope, me.pos = sc, call.Pos()
+			}
+			set := map[string][]string{}
+			for _, m := range mods {
+				v.addModifies(me, m, set)
+			}
+			pre := e.st.clone()
+			for _, comp := range sortedKeys(set) {
+				refs := set[comp]
+				cur := e.st.heapGet(v.d, comp, v.d.heapSorts[comp])
+				nh := v.d.fresh("hi_"+comp, v.d.heapSorts[comp])
+				if refs != nil {
+					var except []string
+					for _, r := range refs {
+						except = append(except, not(eq("qo", r)))
+					}
+					v.d.usesQuant = true
+					e.st.define(fmt.Sprintf("(forall ((qo Int)) (! (=> (and (> qo 0) (<= qo %s) %s) (= (select %s qo) (select %s qo))) :pattern ((select %s qo))))", pre.alloc, and(except...), nh, cur, nh))
+				}
+				e.st.heap[comp] = nh
+			}
+		} else {
+			for _, comp := range sortedKeys(e.st.heap) {
+				e.st.heap[comp] = v.d.fresh("hi_"+comp, v.d.heapSorts[comp])
+			}
+			for comp := range v.d.heapSorts {
+				if _, ok := e.st.heap[comp]; !ok {
+					e.st.heap[comp] = v.d.fresh("hi_"+comp, v.d.heapSorts[comp])
+				}
+			}
+			v.nEpochs++
+			e.st.epoch = v.nEpochs
+		}
+		e.st.names = nil
+		na := v.d.fresh("alloc", "Int")
+		e.st.define(fmt.Sprintf("(>= %s %s)", na, e.st.alloc))
+		e.st.alloc = na
+		v.impureUsed[types.ExprString(call.Fun)] = true
+		var out []Val
+		for i := 0; i < sig.Results().Len(); i++ {
+			out = append(out, v.freshVal(e.st, "ret_dyn", sig.Results().At(i).Type()))
+		}
+		return out
+	}
 	// function values are modelled as pure functions of their arguments
-	v.trust("function values (closures, comparators, filters) called from verified code are pure, deterministic functions of their argument values")
+	v.trust("function values (closures, comparators, filters) called from verified code are pure, deterministic functions of their argument values (except those declared impure)")
 	sorts := []string{"Int"}
 	terms := []string{fv.S}
 	for _, a := range args {
